@@ -267,6 +267,38 @@ func checkC07(c *Ctx, w *World) {
 	pl.whoMayWrite("C07.count", "subConnRef.lastResp", map[string][]string{fname(gotResp): {"store"}, fname(pl.uscs): {"store"}})
 	pl.whoMayWrite("C07.count", "subConnRef.refreshCnt", map[string][]string{fname(gotResp): {"store"}, fname(pl.uscs): {"store"}})
 
+	// ---- C07.recheck: "refreshed … only when … more than the period has passed since the last response … and no refresh is
+	// already in progress": the detector evaluates the rule without the balancer lock; refresh() then takes the lock and
+	// looks only at the in-progress flag. Whatever happened in between — a response, or the completion of the very refresh
+	// the flag stood for (which sets the last response to now) — must be seen: either the decision and the start of the
+	// refresh are one critical section of gb.mu, or refresh() re-validates the decision (reads the slot's lastResp / count
+	// of deadline-exceeded calls, or compares a stamp handed in by the caller) under the lock
+	{
+		decidedUnderLock := true
+		for _, call := range pl.callsInAll(refresh) {
+			if pl.lf.HeldAt(call)["gcpBalancer.mu"] != 2 {
+				decidedUnderLock = false
+			}
+		}
+		revalidates := false
+		for _, a := range pl.ai.ByFn[refresh] {
+			if (a.Field == "subConnRef.lastResp" || a.Field == "subConnRef.deCalls") && (a.Mode == "R" || a.Mode == "A") && pl.lf.HeldAt(a.Instr)["gcpBalancer.mu"] == 2 {
+				revalidates = true
+			}
+		}
+		eachInstr(refresh, func(in ssa.Instruction) {
+			if call, ok := in.(*ssa.Call); ok && pl.lf.HeldAt(call)["gcpBalancer.mu"] == 2 {
+				n := calleeOf(&call.Call).Name()
+				if strings.HasSuffix(n, ".getLastResp") || strings.HasSuffix(n, ".deCallsGet") || strings.HasSuffix(n, ".getDeCalls") {
+					revalidates = true
+				}
+			}
+		})
+		c.check(decidedUnderLock || revalidates, "C07.recheck", "refresh(): the detector's decision is still valid when the refresh starts", p.pos(refresh.Pos()),
+			"the rule is evaluated and acted on in one critical section of gb.mu, or refresh() re-validates it under the lock",
+			"the refresh rule is evaluated in detectUnresponsive without gb.mu and refresh() re-checks only the in-progress flag: a qualifying completion overtaken by the take-over of the refresh it would have joined (or by a response) starts a refresh of a channel whose last response is a moment old")
+	}
+
 	// ---- C07.init: "more than the detection period has passed since the last response" — for a channel that has not had
 	// a response yet the period counts from its creation: every new slot starts with lastResp = now
 	{
